@@ -194,6 +194,15 @@ func ErrFlow(c ssa.CallInstruction, o ErrFlowOpts) ErrFlowResult {
 	_ = nilE
 	if len(ifs) == 0 {
 		if direct {
+			var rets []*ssa.Return
+			for _, a := range atoms {
+				if aliases[a.Val] || aliases[strip(a.Val)] {
+					rets = append(rets, a.Ret)
+				}
+			}
+			if r, clobbered := clobberedByDeferredStore(fn, errIdx, rets); clobbered {
+				return r
+			}
 			return ErrFlowResult{OK: true, How: "returned directly"}
 		}
 		return ErrFlowResult{OK: false, Detail: "error value is neither tested against nil nor returned", At: c.Pos()}
@@ -215,11 +224,175 @@ func ErrFlow(c ssa.CallInstruction, o ErrFlowOpts) ErrFlowResult {
 	// If the value is also used untested on other paths (e.g. overwritten
 	// before test) we rely on SSA: each test covers the def it tests.  A def
 	// that reaches no test and no return is caught above (len(ifs)==0).
+	// the returns that carry the failure must not be clobbered by a deferred
+	// closure assigning the named error result afterwards
+	var failRets []*ssa.Return
+	for _, ne := range nonNilE {
+		failRets = append(failRets, returnsReachableFrom(ne, cutTol)...)
+	}
+	if r, clobbered := clobberedByDeferredStore(fn, errIdx, failRets); clobbered {
+		return r
+	}
 	how := "tested; every failure path returns a non-nil error"
 	if len(tolE) > 0 {
 		how += fmt.Sprintf(" (tolerated: %v)", o.Tolerated)
 	}
 	return ErrFlowResult{OK: true, How: how}
+}
+
+// returnsReachableFrom lists the Returns reachable from edge e without taking
+// a cut edge or executing a cut instruction.
+func returnsReachableFrom(e Edge, c *cut) []*ssa.Return {
+	var out []*ssa.Return
+	visited := map[*ssa.BasicBlock]bool{}
+	var walk func(b *ssa.BasicBlock)
+	walk = func(b *ssa.BasicBlock) {
+		if visited[b] {
+			return
+		}
+		visited[b] = true
+		for _, in := range b.Instrs {
+			if c != nil && c.instrs[in] {
+				return
+			}
+			if r, ok := in.(*ssa.Return); ok {
+				out = append(out, r)
+				return
+			}
+		}
+		for _, s := range b.Succs {
+			if c != nil && c.edges[Edge{b, s}] {
+				continue
+			}
+			walk(s)
+		}
+	}
+	walk(e.To)
+	return out
+}
+
+// DeferredWrite is one assignment of a function's named error result made by
+// deferred code (a deferred closure that captured the result variable, or a
+// deferred in-module function that received its address): it runs after the
+// return value was set.
+type DeferredWrite struct {
+	Defer  *ssa.Defer
+	Writer *ssa.Function // the closure / function containing the store
+	Cell   *ssa.Alloc    // the named result of the enclosing function
+	Store  *ssa.Store
+	Keeps  string // why a failure survives the assignment; "" = it can replace a non-nil error by nil
+}
+
+// DeferredResultWrites lists the deferred assignments of fn's named error
+// result.  An assignment keeps a failure when it stores a non-nil error, a
+// value built from the current result (errors.Join(err, x), cmp.Or(err, x), a
+// wrapper of err), or executes only where the current result was found nil
+// (`if err == nil { err = x }`, `if err != nil { return }; err = x`).
+func DeferredResultWrites(fn *ssa.Function) []DeferredWrite {
+	errIdx := ErrResultIndex(fn.Signature)
+	if errIdx < 0 {
+		return nil
+	}
+	cells := map[*ssa.Alloc]bool{}
+	for _, r := range Returns(fn) {
+		if errIdx < len(r.Results) {
+			if a := cellOf(r.Results[errIdx]); a != nil {
+				cells[a] = true
+			}
+		}
+	}
+	if len(cells) == 0 {
+		return nil
+	}
+	var out []DeferredWrite
+	AllInstrs(fn, func(in ssa.Instruction) {
+		d, ok := in.(*ssa.Defer)
+		if !ok {
+			return
+		}
+		// (writer function, the address of the result as the writer sees it, the cell)
+		type site struct {
+			g    *ssa.Function
+			addr ssa.Value
+			cell *ssa.Alloc
+		}
+		var sites []site
+		switch v := d.Call.Value.(type) {
+		case *ssa.MakeClosure:
+			g := v.Fn.(*ssa.Function)
+			for j, bnd := range v.Bindings {
+				if a, isAlloc := bnd.(*ssa.Alloc); isAlloc && cells[a] {
+					sites = append(sites, site{g, g.FreeVars[j], a})
+				}
+			}
+		case *ssa.Function:
+			if len(v.Blocks) > 0 {
+				for j, arg := range d.Call.Args {
+					if a, isAlloc := arg.(*ssa.Alloc); isAlloc && cells[a] && j < len(v.Params) {
+						sites = append(sites, site{v, v.Params[j], a})
+					}
+				}
+			}
+		}
+		for _, st := range sites {
+			refs := st.addr.Referrers()
+			if refs == nil {
+				continue
+			}
+			loads := map[ssa.Value]bool{}
+			for _, ref := range *refs {
+				if ld, isLd := ref.(*ssa.UnOp); isLd && ld.Op == token.MUL {
+					for al := range Aliases(ld) {
+						loads[al] = true
+					}
+				}
+			}
+			nilE, _, _ := NilTests(st.g, loads)
+			for _, ref := range *refs {
+				sto, isSt := ref.(*ssa.Store)
+				if !isSt || sto.Addr != st.addr {
+					continue
+				}
+				keeps := ""
+				switch {
+				case ErrNilStatus(sto.Val, 0) == NonNil:
+					keeps = "it stores a non-nil error"
+				case loads[sto.Val] || loads[strip(sto.Val)] || derivesFromAny(sto.Val, loads, 0):
+					keeps = "the stored value is built from the current result"
+				case len(nilE) > 0 && MustPass(sto, newCut().Edges(nilE...)):
+					keeps = "it executes only where the current result was found nil"
+				}
+				out = append(out, DeferredWrite{Defer: d, Writer: st.g, Cell: st.cell, Store: sto, Keeps: keeps})
+			}
+		}
+	})
+	return out
+}
+
+// clobberedByDeferredStore: one of rets (returns that carry the monitored
+// failure) yields a named result that a deferred assignment registered before
+// it can replace by nil.
+func clobberedByDeferredStore(fn *ssa.Function, errIdx int, rets []*ssa.Return) (ErrFlowResult, bool) {
+	if len(rets) == 0 {
+		return ErrFlowResult{}, false
+	}
+	var ws []DeferredWrite
+	for _, w := range DeferredResultWrites(fn) {
+		if w.Keeps == "" {
+			ws = append(ws, w)
+		}
+	}
+	for _, w := range ws {
+		for _, r := range rets {
+			if errIdx >= len(r.Results) || cellOf(r.Results[errIdx]) != w.Cell || !Reachable(w.Defer, r) {
+				continue
+			}
+			return ErrFlowResult{OK: false, How: "clobbered-by-deferred-store", At: w.Store.Pos(),
+				Detail: fmt.Sprintf(": the error reaches the return at %s through the named result, but the deferred %s then assigns %s to it unconditionally — a failure is replaced by a value that may be nil",
+					posLine(fn, r.Pos()), FnName(w.Writer), describe(w.Store.Val))}, true
+		}
+	}
+	return ErrFlowResult{}, false
 }
 
 func posLine(fn *ssa.Function, p token.Pos) string {
